@@ -226,6 +226,18 @@ def dist_fields(obj):
     raise ValueError(n)
 
 
+def ulp_perturb(rng, x):
+    """x with every entry moved by one unit in the last place (relative 2^-52), for measuring rounding amplification"""
+    x = np.asarray(x)
+    f = 1.0 + 2.0 ** -52 * rng.choice([-1.0, 1.0], size=x.shape)
+    return x * f
+
+
+def amp_of(arrs_a, arrs_b):
+    return [float(np.max(np.abs(np.asarray(x) - np.asarray(y)))) if np.size(x) and np.shape(x) == np.shape(y) else 0.0
+            for x, y in zip(arrs_a, arrs_b)]
+
+
 def model_arrays(kind, model, posterior=None, with_weight=True):
     """the same canonical fields as raw double arrays (for the fine residuals)"""
     out = []
@@ -289,11 +301,17 @@ def twin_record(rel, A, B, *, kind, wca=(-1,), pi=None, lead=None, slack=256, ex
     rec = dict(kind='twin', rel=rel, A=A or [], B=B or [], pi=pi or [], lead=lead or [], slack=int(slack), fine=int(fine), R=[],
                integration=kind in INTEGRATION, wca=wl, exc=exc, exc_clause=exc_clause, fp=fp, key=key,
                amp=[] if not amp else [enc.flt(float(x)) for x in amp])
-    if fine < 0 and A and B and raw is not None and rel in ('same', 'perm'):
+    if fine < 0 and A and B and raw is not None and rel in ('same', 'perm', 'slice'):
         R = []
         for fa, a, b in zip(A, raw[0], raw[1]):
             a = np.asarray(a)
             b = np.asarray(b)
+            if rel == 'slice':
+                a = a[tuple(lead or [])] if a.ndim == b.ndim + len(lead or []) else a
+                if a.shape != b.shape:
+                    R = []
+                    rec['fine'] = 0
+                    break
             if rel == 'perm':
                 cax = CLASS_AX[fa['name']]
                 if fa['name'] == 'weight' and kind in INTEGRATION:
@@ -302,5 +320,5 @@ def twin_record(rel, A, B, *, kind, wca=(-1,), pi=None, lead=None, slack=256, ex
                 if cax != 0 and a.ndim >= -cax and a.shape[cax] > 1:
                     a = np.take(a, pi, axis=cax)
             R.append(_field(fa['name'], b - a, fa['cplx']))
-        rec['R'] = R
+        rec['R'] = R if rec['fine'] < 0 else []
     return rec
